@@ -267,6 +267,22 @@ func plan(thorough bool) []task {
 	}
 	two := []string{"spread", "two"}
 	allUnk := []string{shscen.ShapeAll, shscen.ShapeUnk}
+	// The kinds split by topic metadata additionally get the item set whose
+	// unmappable items fail with two distinct errors (unknown topic + topic
+	// the user is denied, on a cluster with ACLs).
+	var byTopic []*shscen.Kind
+	for _, k := range shscen.Kinds {
+		if k.Cat == "part" || k.Cat == "replica" {
+			byTopic = append(byTopic, k)
+		}
+	}
+	mix := []string{shscen.ShapeMix}
+	if !thorough {
+		grid(byTopic, []int{3}, allLayouts, mix, []int{0, 1}, 1)
+	} else {
+		grid(byTopic, []int{1, 2, 3, 5}, allLayouts, mix, []int{0, 1}, 1)
+		grid(byTopic, []int{3}, two, mix, []int{0, 1}, 2)
+	}
 	if !thorough {
 		// every kind, 3 brokers, every layout and item-set shape, default order
 		grid(shscen.Kinds, []int{3}, allLayouts, allShapes, []int{0, 1}, 0)
@@ -368,7 +384,7 @@ func TestC23(t *testing.T) {
 		return
 	}
 	r := ev.New("C23", "model_checking")
-	r.Rule("engine N, enumerated: for every request kind the client splits (21 sharders; DescribeLogDirs in both its per-topic and all-brokers form) × brokers (quick 3; thorough 1,2,3,5) × placement of the 3 partitions of t (+ s/0 with the leader of t/0) and of the coordinators of 2 groups / 2 transactional ids (all on one broker, spread, two on one) × requested item set (all known; known + unknown topic u, unknown partition t/7, a group / id that does not exist, broker 9; known + one duplicate; one item in the legacy single-item form) × API (RequestSharded, Request) × environment step (none; leader of t/0 moved resp. coordinators rehashed after the lookup was delivered, i.e. between split and issue) × (with faults) treatment of a connection that dies on its first request (default: not retried, error shard; AlwaysRetryEOF: retried, re-split), one request is issued from a controlled thread and the order of lookup and shard frames and the faults (err:NOT_LEADER / NOT_COORDINATOR / COORDINATOR_NOT_AVAILABLE / COORDINATOR_LOAD_IN_PROGRESS on a shard request, COORDINATOR_NOT_AVAILABLE on a coordinator lookup, connection killed before or after the broker handled a shard request, or before a lookup) are explored within k deviations of the default order: quick k=0 on every configuration with 3 brokers, k=1 on every kind (2 layouts × 2 item sets) and on every configuration of the five most used kinds; thorough k=1 on every configuration, k=2 with 3 brokers on every kind (2 layouts × 2 item sets × environment step) and on every configuration of the five; distinct = (configuration, shard pattern: per shard the broker or error class and its item count) pairs")
+	r.Rule("engine N, enumerated: for every request kind the client splits (21 sharders; DescribeLogDirs in both its per-topic and all-brokers form) × brokers (quick 3; thorough 1,2,3,5) × placement of the 3 partitions of t (+ s/0 with the leader of t/0) and of the coordinators of 2 groups / 2 transactional ids (all on one broker, spread, two on one) × requested item set (all known; known + unknown topic u, unknown partition t/7, a group / id that does not exist, broker 9; known + one duplicate; one item in the legacy single-item form; for the 7 kinds split by topic metadata also 'mix': known + unknown topic u + unknown partition t/7 + topic d that exists but is denied to the client's user on a SASL/ACL cluster, i.e. unmappable items failing with two distinct errors, explored to the same k as the other item sets, on every layout) × API (RequestSharded, Request) × environment step (none; leader of t/0 moved resp. coordinators rehashed after the lookup was delivered, i.e. between split and issue) × (with faults) treatment of a connection that dies on its first request (default: not retried, error shard; AlwaysRetryEOF: retried, re-split), one request is issued from a controlled thread and the order of lookup and shard frames and the faults (err:NOT_LEADER / NOT_COORDINATOR / COORDINATOR_NOT_AVAILABLE / COORDINATOR_LOAD_IN_PROGRESS on a shard request, COORDINATOR_NOT_AVAILABLE on a coordinator lookup, connection killed before or after the broker handled a shard request, or before a lookup) are explored within k deviations of the default order: quick k=0 on every configuration with 3 brokers, k=1 on every kind (2 layouts × 2 item sets) and on every configuration of the five most used kinds; thorough k=1 on every configuration, k=2 with 3 brokers on every kind (2 layouts × 2 item sets × environment step) and on every configuration of the five; distinct = (configuration, shard pattern: per shard the broker or error class and its item count) pairs")
 	r.Assume("kfake is the broker (its handlers echo every requested item; AddPartitionsToTxn only in its single-transaction v0-v3 body)",
 		"synctests build of xsync; virtual time; timer ticks are not explored (a request timeout is the killafter fault)",
 		"goroutine micro-interleavings inside one event are the Go runtime's",
